@@ -1,8 +1,16 @@
-// C15 — BFT liveness under eventual synchrony. Every distinct state of the C01 round-level
-// BFS is an adversarial prefix; from each, synchronous rounds (Byzantine node silent, and
-// Byzantine node honest) are run on the real nodes until an honest node commits.
+// C15 — BFT liveness under eventual synchrony.
+// Part 1: every distinct state of the C01 round-level BFS is an adversarial prefix; from each,
+// synchronous rounds (Byzantine node silent, and Byzantine node honest) are run on the real nodes
+// until an honest node commits.
+// Part 2: every message-level schedule with at most k deviations (message lost / one timer late /
+// duplicated, root-height update reaching a single node) inside the first rounds is an adversarial
+// prefix that leaves nodes at different rounds, phases, root heights and timer offsets; after it
+// delivery is synchronous and an honest node must commit within the skew-derived round bound.
 package main
 
 import "verifharness/bftworld"
 
-func main() { bftworld.Main("C15") }
+func main() {
+	bftworld.PartFraction = 0.55 // the rest of the soft deadline belongs to part 2
+	bftworld.Main("C15")
+}
